@@ -13,6 +13,7 @@ import (
 
 var c01Alpha = []string{"put:a", "put:b", "put:c", "del:a", "del:b", "putE:b", "putL:c", "b1", "b2", "cr", "crb", "q", "re"}
 var c01RichAlpha = []string{"put:a", "put:b", "put:c", "del:a", "del:b", "del:c", "w:-a,-c", "w:-b,+a", "cr", "crb", "q", "re"}
+
 // the zero-length key is an ordinary key: every place that uses "no key yet" / len==0 as a
 // sentinel must still treat it as one (alphabet with "" as the smallest of three keys)
 var emptyKeyAlpha = []string{"put:", "put:a", "put:b", "del:", "del:a", "putL:", "w:-,+a", "w:+,+,-b", "cr", "crk:", "q", "re"}
